@@ -22,7 +22,7 @@ LEVEL = "exploration"
 RULE = ("scenario = 2..4 concurrent send_message callers on one stream pair (staggered starts, own timeouts) + peer answers in a "
         "generated permutation/timing + unrelated notifications/foreign responses; non-trivial = an answer was delivered while at "
         "least two callers were waiting")
-PROBES = ["int_and_digit_string_twin_ids", "answer_consumed_by_other_waiter", "answer_on_poll_edge", "answers_out_of_call_order", "answer_at_deadline"]
+PROBES = ["stdio_pair_on_fake_process", "int_and_digit_string_twin_ids", "answer_consumed_by_other_waiter", "answer_on_poll_edge", "answers_out_of_call_order", "answer_at_deadline"]
 TIERS = {"quick": {"runs": 25000, "wall": 45.0}, "thorough": {"runs": 2000000, "wall": 560.0}}
 ASSUMPTIONS = ["an answer is only sent after the peer has seen the request (a server cannot answer an id it has not received)"]
 SHRINK_LISTS = ["events"]
@@ -72,10 +72,13 @@ def generate(rng: random.Random, tier: str) -> dict:
     for k, e in enumerate(events):
         e["m"] = f"mk{k}"
     return {"v": 1, "uuid_seed": rng.getrandbits(40), "mode": rng.choice(["parse_message", "model_validate"]),
+            "carrier": rng.choice(["raw", "raw", "stdio"]),
             "callers": callers, "events": events}
 
 
 def simplify(scn):
+    if scn.get("carrier") == "stdio":
+        c = copy.deepcopy(scn); c["carrier"] = "raw"; yield c
     for i, ev in enumerate(scn["events"]):
         if ev.get("hops"):
             c = copy.deepcopy(scn); c["events"][i]["hops"] = 0; yield c
@@ -104,10 +107,28 @@ def execute(scn: dict) -> dict:
     st = {"out": {}, "t_call": {}, "t_done": {}}
 
     async def main(sim):
+        if scn.get("carrier") == "stdio":
+            import json as _json
+            from contextlib import AsyncExitStack
+            from sim.fakes.process import ProcessFactory
+            stdio = importlib.import_module("chuk_mcp.transports.stdio.stdio_client")
+            from chuk_mcp.transports.stdio.parameters import StdioParameters
+            factory = ProcessFactory(sim, lambda idx, argv, env: {"read_mode": "eager", "term_latency": ticks(1)})
+            async with AsyncExitStack() as stack:
+                stack.enter_context(patched((anyio, "open_process", factory)))
+                r, w = await stack.enter_async_context(stdio.stdio_client(StdioParameters(command="sim-child", args=[])))
+                child = factory.children[0]
+
+                class _ChildSend:  # the "server side" of the pair is the fake child's stdout
+                    def send_nowait(self, obj):
+                        child.write_stdout([_json.dumps(st["_data"], ensure_ascii=False).encode() + b"\n"])
+                await body(sim, RecRecv(sim, r), RecSend(sim, w), _ChildSend())
+            return
         to_client_send, to_client_recv = anyio.create_memory_object_stream(max(100, len(scn["events"]) + 10))
         from_client_send, _from_client_recv = anyio.create_memory_object_stream(100)
-        rr = RecRecv(sim, to_client_recv)
-        ws = RecSend(sim, from_client_send)
+        await body(sim, RecRecv(sim, to_client_recv), RecSend(sim, from_client_send), to_client_send)
+
+    async def body(sim, rr, ws, to_client_send):
         st["rr"], st["ws"] = rr, ws
         delivered = []
         st["delivered"] = delivered
@@ -141,6 +162,7 @@ def execute(scn: dict) -> dict:
             waiting = sum(1 for i in range(n) if i in st["t_call"] and i not in st["t_done"])
             e = sim.rec("peer", "deliver:" + ev["kind"], None)
             delivered.append({"eseq": e, "t": sim.now(), "k": k, "ev": ev, "data": data, "obj": obj, "waiting": waiting})
+            st["_data"] = data
             to_client_send.send_nowait(obj)
 
         for k, ev in enumerate(scn["events"]):
@@ -187,8 +209,15 @@ def execute(scn: dict) -> dict:
     ws, rr, delivered = st["ws"], st["rr"], st["delivered"]
     # who consumed which delivered object
     consumer = {}
+    unmatched = list(delivered)
     for (_e, _t, tn, item) in rr.got:
-        consumer[id(item)] = tn
+        d_ = dump(item)
+        d_ = {k_: v_ for k_, v_ in d_.items() if v_ is not None} if isinstance(d_, dict) else d_
+        for cand in unmatched:
+            if cand["data"] == d_:
+                consumer[id(cand["obj"])] = tn
+                unmatched.remove(cand)
+                break
     t_write = {}
     for (_e, t, tn, item) in ws.items:
         if tn.startswith("caller-"):
@@ -257,6 +286,8 @@ def execute(scn: dict) -> dict:
             V("timeout-instant", "not-at-deadline", f"caller {i} timed out at {st['t_done'][i]} but its deadline was {deadline}")
     if [i for _, i in sorted(first_answer_order)] != sorted(i for _, i in first_answer_order):
         probe("answers_out_of_call_order")
+    if scn.get("carrier") == "stdio":
+        probe("stdio_pair_on_fake_process")
     mids = [c["mid"] for c in callers if c["mid"] is not None]
     if any(isinstance(a, int) and str(a) in [b for b in mids if isinstance(b, str)] for a in mids):
         probe("int_and_digit_string_twin_ids")
